@@ -217,7 +217,7 @@ def write_evidence(a, seed, units, mine, results, violations, undecided, known_h
         u = units[n]
         fuc.append({'unit': n, 'kind': u.get('kind', 'function'), 'source': u.get('tu'), 'decl': u.get('decl'), 'clang_signature': u.get('sig'),
                     'source_line': r.get('src_line'), 'status': r['status'], 'backend': r.get('backend'),
-                    'mode': (('bounded(capacity=%s, unwind=%s)' % (u.get('cap', 5), u.get('unwind'))) if u.get('unwind') else ('bounded(capacity=%s; loop contracts, no unwinding)' % u.get('cap'))) if r.get('bounded') else 'unbounded (capacity 65536; loop contracts / loop-free)',
+                    'mode': r['mode'] if r.get('mode') else ((('bounded(capacity=%s, unwind=%s)' % (u.get('cap', 5), u.get('unwind'))) if u.get('unwind') else ('bounded(capacity=%s; loop contracts, no unwinding)' % u.get('cap'))) if r.get('bounded') else 'unbounded (capacity 65536; loop contracts / loop-free)'),
                     'obligations': r.get('obligations', 0), 'discharged': r.get('discharged', 0), 'solver_s': round(r.get('solver_s', 0.0), 1),
                     'callees_replaced_by_contract': r.get('replaced', []), 'obligation_classes': r.get('obligation_classes', {})})
         for s in r.get('samples', [])[:2]:
@@ -249,7 +249,7 @@ def write_evidence(a, seed, units, mine, results, violations, undecided, known_h
                 'shim/nvec.h states the behaviour of the std::vector members used; capacity <= 65536 elements, no aliasing between distinct containers'],
             'functions_under_contract': fuc,
             'units_proved_unbounded': proved,
-            'units_bounded_standin': [{'unit': n, 'capacity': units[n].get('cap', 5), 'unwind': units[n].get('unwind'), 'obligations': results[n].get('obligations', 0)} for n in bounded],
+            'units_bounded_standin': [{'unit': n, 'capacity': units[n].get('cap', 65536 if units[n].get('outer_unwind') else 5), 'unwind': units[n].get('unwind') or units[n].get('outer_unwind'), 'obligations': results[n].get('obligations', 0)} for n in bounded],
             'not_covered': meta.get('not_covered', []),
             'rule_firings': firings,
             'samples': samples[:12],
